@@ -97,18 +97,21 @@ def is_result_ok(v):
 class ReaderV:
     """model of BinaryReader<R> over an in-memory buffer (Cursor semantics)"""
 
-    def __init__(self, arr, length, max_buffer=MAX_BUFFER):
+    def __init__(self, arr, length, max_buffer=MAX_BUFFER, no_eof=False):
         self.arr = arr
         self.length = length          # Int 64
         self.pos = Int(0, 64)
         self.max_buffer = max_buffer
         self.reads = 0
+        self.no_eof = no_eof          # round-trip mode: the input is as long as the decoder wants
 
     def clone(self):
         return self
 
     def remaining_ok(self, n):
         """z3 condition: n bytes available at pos"""
+        if self.no_eof:
+            return True
         p, l = self.pos, self.length
         c1 = int_binop("Le", p, l)
         rem = int_binop("Sub", l, p)
@@ -130,6 +133,28 @@ class ReaderV:
         if ctx.branch(int_binop("Lt", self.pos, self.length)):
             self.pos = self.length
         return None
+
+    def read_view(self, ctx, length):
+        """length: Int(64) possibly symbolic -> Bytes or None on EOF"""
+        if self.no_eof and not length.concrete:
+            # round-trip mode: variable-length fields are bounded by `field_max` bytes each
+            ctx.assume(int_binop("Le", length, Int(getattr(ctx.engine, "field_max", 64), 64)))
+        if ctx.branch(self.remaining_ok(length)):
+            b = Bytes(self.arr, self.pos, length)
+            self.pos = int_binop("Add", self.pos, length)
+            return b
+        if ctx.branch(int_binop("Lt", self.pos, self.length)):
+            self.pos = self.length
+        return None
+
+    def position(self):
+        return self.pos
+
+    def total_len(self):
+        return self.length
+
+    def seek(self, ctx, to):
+        return do_seek(ctx, self, to)
 
 
 class WriterV:
@@ -159,6 +184,18 @@ class WriterV:
 
     def bytes(self):
         return Bytes(self.arr, Int(0, 64), self.length)
+
+    def put_bytes(self, engine, ctx, b):
+        return write_seq(engine, ctx, self, b)
+
+    def position(self):
+        return self.pos
+
+    def total_len(self):
+        return self.length
+
+    def seek(self, ctx, to):
+        return do_seek(ctx, self, to)
 
 
 def le_bytes(v, nbytes):
@@ -190,14 +227,14 @@ def future(name, thunk):
 
 def get_reader(v):
     o = deref(v)
-    if not isinstance(o, ReaderV):
+    if not hasattr(o, "read_exact"):
         raise Untranslatable("reader is %s" % type(o).__name__)
     return o
 
 
 def get_writer(v):
     o = deref(v)
-    if not isinstance(o, WriterV):
+    if not hasattr(o, "put_bytes"):
         raise Untranslatable("writer is %s" % type(o).__name__)
     return o
 
@@ -244,14 +281,11 @@ def read_vec(ctx, rd, length):
     """length: Int(64).  Models `vec![0; length]; read_exact`"""
     if guard_size(ctx, rd, length):
         return err(io_error("Other", "length exceeds max buffer size"))
-    ctx.note("alloc", size=length, pos=rd.pos, total=rd.length, what="read buffer")
-    if ctx.branch(rd.remaining_ok(length)):
-        b = Bytes(rd.arr, rd.pos, length)
-        rd.pos = int_binop("Add", rd.pos, length)
-        return ok(b)
-    if ctx.branch(int_binop("Lt", rd.pos, rd.length)):
-        rd.pos = rd.length
-    return err(io_error("UnexpectedEof"))
+    ctx.note("alloc", size=length, pos=rd.position(), total=rd.total_len(), what="read buffer")
+    b = rd.read_view(ctx, length)
+    if b is None:
+        return err(io_error("UnexpectedEof"))
+    return ok(b)
 
 
 @model(r"BinaryReader::<.*>::read_bytes$")
@@ -389,13 +423,13 @@ def m_read_string(engine, ctx, args, callee, frame):
 @model(r"BinaryReader::<.*>::stream_position$")
 def m_reader_pos(engine, ctx, args, callee, frame):
     rd = get_reader(args[0])
-    return future(callee, lambda: ok(rd.pos))
+    return future(callee, lambda: ok(rd.position()))
 
 
 @model(r"BinaryReader::<.*>::len$")
 def m_reader_len(engine, ctx, args, callee, frame):
     rd = get_reader(args[0])
-    return future(callee, lambda: ok(rd.length))
+    return future(callee, lambda: ok(rd.total_len()))
 
 
 def do_seek(ctx, obj, to):
@@ -420,7 +454,7 @@ def do_seek(ctx, obj, to):
 def m_seek(engine, ctx, args, callee, frame):
     obj = deref(args[0])
     to = args[1]
-    return future(callee, lambda: do_seek(ctx, obj, to))
+    return future(callee, lambda: obj.seek(ctx, to))
 
 
 # ---- writer
@@ -450,9 +484,41 @@ def m_write_bool(engine, ctx, args, callee, frame):
 
 
 def write_seq(engine, ctx, wr, b):
-    n = ctx.concretize(b.len, limit=64, what="write_bytes length")
-    wr.put(ctx, [b.byte(i) for i in range(n)])
-    return Int(n, 64)
+    if b.len.concrete:
+        n = b.len.v
+        wr.put(ctx, [b.byte(i) for i in range(n)])
+        return Int(n, 64)
+    cap = getattr(engine, "field_length_cap", None)
+    if cap is not None:
+        # round-trip mode: a field whose length the path already pins (nonce sizes, ids) is written as is;
+        # free-length fields are explored for every concrete length up to `cap` (longer: outside the bound)
+        m = ctx.model()
+        if m is None:
+            raise Infeasible()
+        v = m.eval(b.len.z3(), model_completion=True).as_long()
+        if not ctx.must(b.len.z3() == z3.BitVecVal(v, 64)):
+            ctx.assume(int_binop("Le", b.len, Int(cap, 64)))
+            v = ctx.concretize(b.len, cap + 2, "field length")
+        else:
+            ctx.add(b.len.z3() == z3.BitVecVal(v, 64))
+        wr.put(ctx, [b.byte(i) for i in range(v)])
+        return Int(v, 64)
+    # symbolic length: conditional stores up to the bound (array theory), no forking on the length
+    bound = getattr(engine, "max_input", 64)
+    if not ctx.must(int_binop("Le", b.len, Int(bound, 64))):
+        if not ctx.branch(int_binop("Le", b.len, Int(bound, 64))):
+            raise BoundHit("write of a byte string longer than %d" % bound)
+    arr = wr.arr
+    for i in range(bound):
+        idx = int_binop("Add", wr.pos, Int(i, 64)).z3()
+        inside = z3.ULT(z3.BitVecVal(i, 64), b.len.z3())
+        arr = z3.Store(arr, idx, z3.If(inside, b.byte(i).z3(), z3.Select(arr, idx)))
+    wr.arr = arr
+    wr.pos = int_binop("Add", wr.pos, b.len)
+    gt = int_binop("Gt", wr.pos, wr.length)
+    if ctx.branch(gt):
+        wr.length = wr.pos
+    return b.len
 
 
 @model(r"BinaryWriter::<.*>::write_bytes::<")
@@ -463,7 +529,7 @@ def m_write_bytes(engine, ctx, args, callee, frame):
     def run():
         if wr.max_buffer is not None and ctx.branch(int_binop("Gt", b.len, Int(wr.max_buffer, 64))):
             return err(io_error("Other", "length exceeds max buffer size"))
-        return ok(write_seq(engine, ctx, wr, b))
+        return ok(wr.put_bytes(engine, ctx, b))
     return future(callee, run)
 
 
@@ -476,20 +542,20 @@ def m_write_string(engine, ctx, args, callee, frame):
         if wr.max_buffer is not None and ctx.branch(int_binop("Gt", b.len, Int(wr.max_buffer, 64))):
             return err(io_error("Other", "length exceeds max buffer size"))
         wr.put(ctx, le_bytes(int_cast(b.len, 32, False), 4))
-        return ok(write_seq(engine, ctx, wr, b))
+        return ok(wr.put_bytes(engine, ctx, b))
     return future(callee, run)
 
 
 @model(r"BinaryWriter::<.*>::stream_position$")
 def m_writer_pos(engine, ctx, args, callee, frame):
     wr = get_writer(args[0])
-    return future(callee, lambda: ok(wr.pos))
+    return future(callee, lambda: ok(wr.position()))
 
 
 @model(r"BinaryWriter::<.*>::len$")
 def m_writer_len(engine, ctx, args, callee, frame):
     wr = get_writer(args[0])
-    return future(callee, lambda: ok(wr.length))
+    return future(callee, lambda: ok(wr.total_len()))
 
 
 @model(r"BinaryWriter::<.*>::flush$")
@@ -580,7 +646,11 @@ def m_vec_decode(engine, ctx, args, callee, frame):
             vec = VecV(ety, [])
             cell.v = vec
         i = 0
+        cap = getattr(engine, "collection_cap", None)
         while True:
+            if cap is not None and not n.concrete and i >= cap:
+                ctx.assume(b_not(int_binop("Lt", Int(i, 32), n)))
+                break
             if not ctx.branch(int_binop("Lt", Int(i, 32), n)):
                 break
             if i >= engine.loop_bound:
@@ -1493,6 +1563,11 @@ def iter_next(engine, ctx, it):
         c = it.items[it.end]
         return Ref(c) if it.by_ref else c.v
     if k == "range":
+        cap = getattr(engine, "collection_cap", None)
+        if cap is not None and not it.stop.concrete and it.start.concrete and it.start.v >= cap:
+            # round-trip mode: collections are explored up to `cap` elements
+            ctx.assume(b_not(int_binop("Lt", it.start, it.stop)))
+            return None
         if ctx.branch(int_binop("Lt", it.start, it.stop)):
             v = it.start
             it.start = int_binop("Add", it.start, Int(1, v.bits, v.signed))
@@ -2524,3 +2599,135 @@ def m_seq_eq_generic(engine, ctx, args, callee, frame):
         for x, y in zip(ia, ib):
             c = b_and(c, value_eq_cond(engine, ctx, x.v, y.v))
     return b_not(c) if callee.endswith("ne") else c
+
+
+
+# ------------------------------------------------------------------ structural equality as one formula (no forking)
+
+def eq_formula(engine, a, b, bound=64):
+    """z3 condition (or python bool) that values a and b are equal; sequences of symbolic length are compared
+    position-wise up to `bound`"""
+    a, b = deref(a), deref(b)
+    if a is None and b is None:
+        return True
+    if isinstance(a, Int) and isinstance(b, Int):
+        if a.bits != b.bits:
+            return False
+        return int_binop("Eq", a, b)
+    if isinstance(a, bool) or isinstance(b, bool) or (z3.is_expr(a) and z3.is_bool(a)) or (z3.is_expr(b) and z3.is_bool(b)):
+        return to_bool(bz3(a) == bz3(b))
+    if getattr(a, "hash_term", False) or getattr(b, "hash_term", False):
+        from .merkle import hash_eq
+        return hash_eq(None, a, b)
+    if a is b:
+        return True
+    if isinstance(a, Bytes) or isinstance(b, Bytes):
+        try:
+            ba, bb = as_bytes(engine, a), as_bytes(engine, b)
+        except Untranslatable:
+            return False
+        if ba is bb:
+            return True
+        c = int_binop("Eq", ba.len, bb.len)
+        if c is False:
+            return False
+        if ba.len.concrete:
+            n = ba.len.v
+            for i in range(n):
+                c = b_and(c, int_binop("Eq", ba.byte(i), bb.byte(i)))
+            return c
+        conj = [bz3(c)]
+        for i in range(bound):
+            conj.append(z3.Implies(z3.ULT(z3.BitVecVal(i, 64), ba.len.z3()), ba.byte(i).z3() == bb.byte(i).z3()))
+        conj.append(z3.ULE(ba.len.z3(), z3.BitVecVal(bound, 64)))
+        return to_bool(z3.And(*conj))
+    if isinstance(a, Agg) and isinstance(b, Agg):
+        if len(a.fields) != len(b.fields):
+            return False
+        c = True
+        for x, y in zip(a.fields, b.fields):
+            c = b_and(c, eq_formula(engine, x.v, y.v, bound))
+            if c is False:
+                return False
+        return c
+    if isinstance(a, EnumV) and isinstance(b, EnumV):
+        if a.variant != b.variant or len(a.fields) != len(b.fields):
+            return False
+        c = True
+        for x, y in zip(a.fields, b.fields):
+            c = b_and(c, eq_formula(engine, x.v, y.v, bound))
+        return c
+    if isinstance(a, VecV) and isinstance(b, VecV):
+        if len(a.items) != len(b.items):
+            return False
+        c = True
+        for x, y in zip(a.items, b.items):
+            c = b_and(c, eq_formula(engine, x.v, y.v, bound))
+        return c
+    if isinstance(a, SetV) and isinstance(b, SetV):
+        if len(a.items) != len(b.items):
+            return False
+        c = True
+        for x in a.items:
+            anyc = False
+            for y in b.items:
+                anyc = b_or(anyc, eq_formula(engine, x, y, bound))
+            c = b_and(c, anyc)
+        return c
+    if isinstance(a, MapV) and isinstance(b, MapV):
+        if len(a.entries) != len(b.entries):
+            return False
+        c = True
+        for kx, cx in a.entries:
+            anyc = False
+            for ky, cy in b.entries:
+                anyc = b_or(anyc, b_and(eq_formula(engine, kx, ky, bound), eq_formula(engine, cx.v, cy.v, bound)))
+            c = b_and(c, anyc)
+        return c
+    if isinstance(a, Opaque) and isinstance(b, Opaque):
+        if a.name != b.name:
+            return False
+        if a.payload is None and b.payload is None:
+            return True
+        if isinstance(a.payload, Bytes) and isinstance(b.payload, Bytes):
+            return eq_formula(engine, a.payload, b.payload, bound)
+        return a.payload is b.payload or a.payload == b.payload
+    if hasattr(a, "eq_formula"):
+        return a.eq_formula(engine, b, bound)
+    if type(a) is not type(b):
+        return False
+    raise Untranslatable("eq_formula of %s" % type(a).__name__)
+
+
+def describe(v, model, depth=0):
+    """render a value under a z3 model (for counterexample reports)"""
+    v = deref(v)
+    if depth > 6:
+        return "..."
+    if isinstance(v, Int):
+        if v.concrete:
+            return v.v
+        return norm(model.eval(v.z3(), model_completion=True).as_long(), v.bits, v.signed)
+    if isinstance(v, bool):
+        return v
+    if z3.is_expr(v):
+        return str(model.eval(v, model_completion=True))
+    if isinstance(v, Bytes):
+        n = v.len.v if v.len.concrete else model.eval(v.len.z3(), model_completion=True).as_long()
+        n = min(n, 64)
+        return bytes(model.eval(v.byte(i).z3(), model_completion=True).as_long() for i in range(n)).hex()
+    if isinstance(v, Agg):
+        if v.kind == "array" and all(isinstance(c.v, Int) and c.v.bits == 8 for c in v.fields):
+            return bytes(describe(c.v, model) & 0xFF for c in v.fields).hex()
+        return {"%s" % (v.ty or v.kind): [describe(c.v, model, depth + 1) for c in v.fields]}
+    if isinstance(v, EnumV):
+        return {"%s::%s" % (v.ty, v.variant): [describe(c.v, model, depth + 1) for c in v.fields]}
+    if isinstance(v, VecV):
+        return [describe(c.v, model, depth + 1) for c in v.items]
+    if isinstance(v, SetV):
+        return {"set": [describe(x, model, depth + 1) for x in v.items]}
+    if isinstance(v, MapV):
+        return {"map": [[describe(k, model, depth + 1), describe(c.v, model, depth + 1)] for k, c in v.entries]}
+    if isinstance(v, Opaque):
+        return "Opaque(%s)" % v.name
+    return repr(v)[:60]
